@@ -35,6 +35,9 @@ pub struct Policy {
     /// a carrier that buffers: written bytes reach the reader only when a flush (or close) completes, like a
     /// `NoiseSocket` or a TLS stream; a flush answered with an injected `Pending` delivers nothing
     pub deliver_on_flush: bool,
+    /// once the reading end has been dropped (the peer hung up) writes AND flushes fail with `WriteZero` — what a yamux
+    /// stream does after the remote closed it — instead of writes failing with `BrokenPipe`
+    pub gone_is_write_zero: bool,
     /// after this many bytes have been written in total the pipe reports EOF to the reader and discards the rest
     pub cut_after: Option<u64>,
     /// XOR masks applied to bytes at absolute stream offsets (in-transit corruption)
@@ -52,6 +55,7 @@ impl Default for Policy {
             pending_writes: BTreeSet::new(),
             pending_flushes: BTreeSet::new(),
             deliver_on_flush: false,
+            gone_is_write_zero: false,
             cut_after: None,
             flips: Vec::new(),
         }
@@ -222,7 +226,8 @@ impl AsyncWrite for PipeWriter {
             return Poll::Pending;
         }
         if s.reader_dropped {
-            return Poll::Ready(Err(io::ErrorKind::BrokenPipe.into()));
+            let kind = if s.policy.gone_is_write_zero { io::ErrorKind::WriteZero } else { io::ErrorKind::BrokenPipe };
+            return Poll::Ready(Err(kind.into()));
         }
         if s.writer_closed {
             return Poll::Ready(Err(io::ErrorKind::BrokenPipe.into()));
@@ -280,6 +285,9 @@ impl AsyncWrite for PipeWriter {
             s.stats.injected_pending += 1;
             cx.waker().wake_by_ref();
             return Poll::Pending;
+        }
+        if s.reader_dropped && s.policy.gone_is_write_zero {
+            return Poll::Ready(Err(io::ErrorKind::WriteZero.into()));
         }
         if !s.staged.is_empty() {
             let staged = std::mem::take(&mut s.staged);
